@@ -18,7 +18,7 @@ import traceback
 VERIF = os.path.dirname(os.path.dirname(os.path.abspath(__file__)))
 REPO = os.environ.get('VERIF_REPO', '/repo')
 VENV_PY = '/venv/bin/python'
-EVID = os.path.join(VERIF, 'evidence')
+EVID = os.environ.get('VERIF_EVID', os.path.join(VERIF, 'evidence'))
 REPLAY_DIR = os.path.join(EVID, 'replay')
 GUARD = 'MATZE_DD_YALAFI_VERIF'
 
